@@ -90,17 +90,26 @@ def gen_c01_sites():
              r'unsigned\s+count\s*=\s*0\s*;', r'for\s*\(\s*size_t\s+aa\s*=\s*0\s*;[^;]*;\s*\+\+aa\s*\)\s*if\s*\(\s*checkEqualGeneral\s*\(\s*q_\[aa\]\s*,\s*max\s*\)\s*\)\s*\+\+count\s*;',
              r'for\s*\(\s*size_t\s+aa\s*=\s*0\s*;', r'if\s*\(\s*checkEqualGeneral\s*\(\s*q_\[aa\]\s*,\s*max\s*\)\s*\)',
              r'p\[aa\]\s*=\s*1\.0\s*/\s*count\s*;', r'p\[aa\]\s*=\s*0\.0\s*;']
+    # the same repair written with Eigen's reduction (fixes/C09-4, the form applied to the library): `q_.maxCoeff()` is the true maximum
+    fixed2 = [r'const\s+double\s+max\s*=\s*q_\.maxCoeff\(\)\s*;',
+              r'unsigned\s+count\s*=\s*0\s*;', r'for\s*\(\s*size_t\s+aa\s*=\s*0\s*;[^;]*;\s*\+\+aa\s*\)\s*if\s*\(\s*checkEqualGeneral\s*\(\s*q_\[aa\]\s*,\s*max\s*\)\s*\)\s*\+\+count\s*;',
+              r'for\s*\(\s*size_t\s+aa\s*=\s*0\s*;', r'if\s*\(\s*checkEqualGeneral\s*\(\s*q_\[aa\]\s*,\s*max\s*\)\s*\)',
+              r'p\[aa\]\s*=\s*1\.0\s*/\s*count\s*;', r'p\[aa\]\s*=\s*0\.0\s*;']
     try:
         _order(body, scan, rel); true_max_first = False
         # nothing else may touch max/count in the as-found shape
         if len(re.findall(r'\bmax\s*=', body)) != 2 or len(re.findall(r'\bcount\s*=', body)) != 2 or len(re.findall(r'\+\+count', body)) != 1:
             raise E.ExtractError(f'unexpected extra assignment to max/count in {rel} getPolicy')
     except E.ExtractError as e1:
+        nmax = 2
         try:
             _order(body, fixed, rel); true_max_first = True
         except E.ExtractError:
-            raise e1
-        if 'count = 1' in body or len(re.findall(r'\bmax\s*=', body)) != 2 or len(re.findall(r'\+\+count', body)) != 1 or 'checkEqualSmall' in body:
+            try:
+                _order(body, fixed2, rel); true_max_first = True; nmax = 1
+            except E.ExtractError:
+                raise e1
+        if 'count = 1' in body or len(re.findall(r'\bmax\s*=', body)) != nmax or len(re.findall(r'\+\+count', body)) != 1 or 'checkEqualSmall' in body:
             raise E.ExtractError(f'repaired getPolicy shape in {rel} has extra assignments')
     rows.append(('greedyTrueMaxFirst', 'Bool', 'true' if true_max_first else 'false', rel, 1))
     rows.append(('greedySites', 'List String', '["init", "trueMax", "count0", "countTies", "fillFrom0", "tieGeneral2", "recip", "zero"]' if true_max_first else
